@@ -113,3 +113,28 @@ def replay_p1text(p):
     r = genuine_fresh({"seed": 2, "n": 60})
     if r["violations"]: return {"violated": True, "detail": r["violations"][0], "found_by": "bounded search"}
     return {"violated": False, "inconclusive": True, "detail": "no binary content accepted by decode_p1_readout_content"}
+
+def bounded_search(p):
+    """used when the deductive side is undecided: the per-call contract of decode_message_payload / decode_message evaluated on the real AutoDecoder with scripted decoders -
+    every remembered state x every accept / ConstructError pattern of the table (plus ValueError and empty-dictionary variants) x the four message shapes"""
+    import itertools
+    N = len(autodecoder.AutoDecoder.payload_decoder_functions); ev = 0; bad = []
+    shapes = ["han.autodecoder.AutoDecoder.decode_message_payload[x]", "han.autodecoder.AutoDecoder.decode_message[frame or DLMS message]", "han.autodecoder.AutoDecoder.decode_message[P1 readout]",
+              "han.autodecoder.AutoDecoder.decode_message[payload empty]", "han.autodecoder.AutoDecoder.decode_message[payload None]"]
+    for obl in shapes:
+        for prev in [None] + list(range(N)):
+            for pat in itertools.product((0, 1), repeat=N):
+                variants = [(list(pat), [False] * N), ([2 if o else 0 for o in pat], [False] * N), (list(pat), [True] * N)]
+                for outs, empty in variants:
+                    for o_r, e_r in ((1, False), (0, False), (0, True)):
+                        if "P1 readout" not in obl and (o_r, e_r) != (1, False): continue
+                        ev += 1
+                        r = replay_auto({"witness": {"prev": prev, "outcomes": outs, "empty": empty, "outcome_readout": o_r, "empty_readout": e_r}, "obligation": obl})
+                        if r.get("violated"): bad.append({"shape": obl, "remembered": prev, "outcomes": outs, "empty": empty, "detail": r.get("detail")})
+                        if bad: break
+                    if bad: break
+                if bad: break
+            if bad: break
+        if bad: break
+    return {"name": "bounded search: scripted decoders through the real AutoDecoder", "bound": f"{ev} calls: 5 message shapes x remembered None/0..{N-1} x 2^{N} accept patterns x (ConstructError / ValueError / empty dictionary variants)",
+            "evaluations": ev, "distinct_nontrivial": ev, "violations": bad[:1]}
